@@ -139,6 +139,10 @@ INTERLEAVE = [
     dict(pre=[9], effs=[12], second_action=[2, 10], pre2=[4], goal=[0, 4], n_bounds="both", sym=["x0"]),
     dict(pre=[12], effs=[17, 12], second_action=[2, 15], pre2=[4], goal=[0], n_bounds="both", sym=["c"]),
     dict(pre=[2], effs=[0, 1], effcond=9, second_action=[3, 10], pre2=[5], goal=[5], n_bounds="both", sym=[]),
+    # the same with the undefined fluent as LEFT operand (operands are evaluated right to left: n's value is in the walker's
+    # table when u fails)
+    dict(pre=[18], effs=[12], second_action=[2, 10], pre2=[4], goal=[0, 4], n_bounds="both", sym=["x0"]),
+    dict(pre=[18], effs=[12], second_action=[3], pre2=[5], goal=[18], n_bounds="both", sym=["c"]),
 ]
 
 
